@@ -32,6 +32,7 @@ func gen(r *hlib.Rand, n int, tier, profile string, emit func(string, ...any)) {
 		var sent []uint64
 		cur := base
 		var live []int // threads that still have steps to do
+		left := map[int]int{}
 		nround := r.Range(3, 25)
 		for k := 0; k < nround; k++ {
 			// a burst of packets arrives: fresh counters, wire duplicates of each other, replays of old ones
@@ -68,29 +69,53 @@ func gen(r *hlib.Rand, n int, tier, profile string, emit func(string, ...any)) {
 				emit("pkt %d %d %s", tid, c, kind)
 				sent = append(sent, c)
 				live = append(live, tid)
+				left[tid] = 3
 				tid++
 				ops++
 			}
-			// let the goroutines run: random interleaving of their steps, some as uninterrupted calls
-			steps := r.Range(1, 4*len(live)+1)
-			for j := 0; j < steps && len(live) > 0; j++ {
-				t := live[r.Intn(len(live))]
-				if r.Chance(1, 6) {
-					emit("full %d", t)
-				} else {
-					emit("step %d", t)
+			// a race: several goroutines handle copies of the same counter in lock step
+			if r.Chance(1, 4) {
+				var c uint64 = cur
+				if r.Bool() && cur < top {
+					cur++
+					c = cur
 				}
-				ops++
-			}
-			if len(live) > 12 {
-				// finish the oldest
-				for _, t := range live[:6] {
-					for q := 0; q < 3; q++ {
+				g := r.Range(2, 4)
+				var grp []int
+				for j := 0; j < g; j++ {
+					emit("pkt %d %d %s", tid, c, hlib.Pick(r, "valid", "valid", "relay", "forged"))
+					grp = append(grp, tid)
+					tid++
+					ops++
+				}
+				sent = append(sent, c)
+				for round := 0; round < 3; round++ {
+					for _, t := range grp {
 						emit("step %d", t)
 						ops++
 					}
 				}
-				live = live[6:]
+			}
+			// let the goroutines run: random interleaving of their steps, some as uninterrupted calls
+			steps := r.Range(1, 4*len(live)+1)
+			for j := 0; j < steps && len(live) > 0; j++ {
+				i := r.Intn(len(live))
+				t := live[i]
+				if left[t] == 3 && r.Chance(1, 5) {
+					emit("full %d", t)
+					left[t] = 0
+				} else {
+					emit("step %d", t)
+					left[t]--
+				}
+				ops++
+				if left[t] <= 0 {
+					live = append(live[:i], live[i+1:]...)
+					if r.Chance(1, 10) {
+						emit("step %d", t) // a finished goroutine does nothing more
+						ops++
+					}
+				}
 			}
 			if r.Chance(1, 8) {
 				emit("dump")
@@ -98,7 +123,7 @@ func gen(r *hlib.Rand, n int, tier, profile string, emit func(string, ...any)) {
 			}
 		}
 		for _, t := range live {
-			for q := 0; q < 3; q++ {
+			for q := 0; q < left[t]; q++ {
 				emit("step %d", t)
 				ops++
 			}
